@@ -28,6 +28,14 @@ def import_forms(P):
         ['from', 'urllib', 'parse', 'parse'],
         ['import', 'xml.dom.minidom'], ['importas', 'xml.dom.minidom', 'md'], ['from', 'xml.dom', 'minidom', 'minidom'],
         ['from', 'xml.dom', 'XHTML_NAMESPACE', 'XN'],
+        # several names in one from-import; a sub-module (not imported yet) before plain attributes, with
+        # (TOP) and without (ONLY) a same-named attribute inside the sub-module
+        ['fromn', P, [['sub', 'sub'], ['TOP', 'TOP']]], ['fromn', P, [['sub', 'sub'], ['ONLY', 'ONLY']]],
+        ['fromn', P, [['sub', 'sb'], ['TOP', 'T'], ['ONLY', 'O']]], ['fromn', P, [['other', 'oth'], ['sub', 'sub'], ['TOP', 'TOP']]],
+        ['fromn', P, [['TOP', 'TOP'], ['sub', 'sub']]], ['fromn', f'{P}.sub', [['mod', 'mod'], ['SUBC', 'SUBC'], ['TOP', 'ST']]],
+        ['fromn', P, [['sub', 'sub'], ['other', 'other'], ['ONLY', 'ONLY']]],
+        ['fromn', 'xml.dom', [['minidom', 'minidom'], ['XHTML_NAMESPACE', 'XN']]],
+        ['fromn', 'c14_mod', [['K', 'K'], ['S', 'S']]], ['fromn', 'urllib', [['parse', 'parse']]],
     ]
 
 
@@ -73,12 +81,19 @@ class ModSim:
         if s[0] == 'importas':
             self.load(s[1])
             return s[2], self.vtype(self.value(s[1]))
+        if s[0] == 'fromn':
+            return self.bind_all(s)[0]
         self.load(s[1])
         attrs = self.mods[s[1]]
         if s[2] in attrs:
             return s[3], self.vtype(attrs[s[2]])
         self.load(f'{s[1]}.{s[2]}')
         return s[3], self.vtype(self.value(f'{s[1]}.{s[2]}'))
+
+    def bind_all(self, s):
+        if s[0] == 'fromn':
+            return [self.bind(['from', s[1], n, a]) for n, a in s[2]]
+        return [self.bind(s)]
 
     def chains(self, m, depth=3):
         """attribute chains from module m to plain values: [([attrs], type)]"""
@@ -432,6 +447,15 @@ def seeds():
         ['save', [], [['d', ['attr', N('C'), 'd']], ['v', ['attr', N('C'), 'v']]]]])
     ex([['def', 'f', ['x'], ['walrus', 'a', N('x')]], ['assign', 'r', ['call', N('f'), [['int', 5]]]], ['save', ['r', 'a'], []]])
     ex([['save', ['a'], [['a', ['int', 5]], ['zz', ['int', 1]]]]])
+    # several names in one from-import, a not-yet-imported sub-module first: later names still come from the package
+    R3 = 'c14pkg_seed03'
+    out.append({'kind': 'eval', 'heap': [[1, 2]], 'ctx': [['a', 1], ['lst', {'ref': 0}]], 'pkg': R3,
+                'imports': [['fromn', R3, [['sub', 'sub'], ['TOP', 'TOP']]]],
+                'exprs': [N('TOP'), ['lam', [], N('TOP'), []], ['comp', N('TOP'), [['i', N('lst')]]], ['attr', N('sub'), 'TOP']]})
+    R4 = 'c14pkg_seed04'
+    out.append({'kind': 'eval', 'heap': [[1, 2]], 'ctx': [['a', 1], ['lst', {'ref': 0}]], 'pkg': R4,
+                'imports': [['fromn', R4, [['other', 'oth'], ['sub', 'sb'], ['ONLY', 'ONLY'], ['TOP', 'T']]]],
+                'exprs': [['bin', 'add', N('ONLY'), N('a')], N('T'), ['attr', N('oth'), 'NAME'], ['attr', N('sb'), 'SUBC']]})
     # a second pyimport step re-binds an imported name: reads before and after, at every depth
     Q = 'c14pkg_seed02'
     out.append({'kind': 'eval', 'heap': [[1, 2]], 'ctx': [['a', 1], ['lst', {'ref': 0}]], 'pkg': Q,
@@ -540,9 +564,9 @@ def gen_session_case(rng):
         steps.append(['import', b])
         imports += b
         for st in b:
-            k, t = sim.bind(st)
-            if k not in types:
-                genv[k] = t
+            for k, t in sim.bind_all(st):
+                if k not in types:
+                    genv[k] = t
         for k, t in types.items():
             genv[k] = t
         name = L_binding(b)
@@ -580,8 +604,8 @@ def gen_eval_case(rng):
         imports = [list(rng.choice(forms[8:] if rng.random() < 0.75 else forms)) for _ in range(rng.choice([1, 1, 2, 3]))]
     genv = {}
     for s in imports:
-        k, t = sim.bind(s)
-        genv[k] = t
+        for k, t in sim.bind_all(s):
+            genv[k] = t
     genv.update(types)           # context first in the chain: it shadows imports
     g = Gen(rng, genv, sim=sim)
     exprs = []
@@ -642,9 +666,9 @@ def gen_exec_case(rng):
             forms = import_forms(P)
             s = list(rng.choice(forms[:6] if rng.random() < 0.35 else forms[8:]))
             block.append(list(s))
-            k, t = sim.bind(s)
-            genv[k] = t
-            bound.append(k)
+            for k, t in sim.bind_all(s):
+                genv[k] = t
+                bound.append(k)
         elif r < 0.58:
             k = rng.choice([0, 1, 1, 2])
             ps = rng.sample(LOCALS, k)
@@ -691,6 +715,6 @@ def gen_exec_case(rng):
     if not block:
         block.append(['assign', 'x', ['int', 1]])
     case = {'kind': 'exec', 'heap': heap, 'ctx': ctx, 'block': block}
-    if mentions_pkg([s for s in block if s[0] in ('import', 'importas', 'from')], P):
+    if mentions_pkg([s for s in block if s[0] in ('import', 'importas', 'from', 'fromn')], P):
         case['pkg'] = P
     return case
